@@ -3,6 +3,7 @@ from vf import rt, scen, world as W, commands
 from vf.commands import C
 from vf.runner import CH
 from harness import common as K
+from vf import sched
 
 PARTITION = None
 MOD = 'harness.c07'
@@ -18,31 +19,6 @@ META = {
                    'created trash directories, same st_dev (virtual mount table) of source parent and chosen directory.',
     'assumptions': ['PosixModel fidelity (./check MODEL)', 'virtual mount table injected via os.path.ismount of the model'],
 }
-
-
-def k_home(has_xdg: bool, xdg: str, has_home: bool, home: str) -> str:
-    """
-    pre: len(xdg) <= 3 and len(home) <= 3
-    post: _ == ''
-    """
-    rt.begin()
-    from trashcli.lib.trash_dirs import home_trash_dir_path_from_env
-    env = {}
-    if has_xdg:
-        env['XDG_DATA_HOME'] = xdg
-    if has_home:
-        env['HOME'] = home
-    got = home_trash_dir_path_from_env(env)
-    if has_xdg and xdg != '':
-        want = [xdg + '/Trash']
-    elif has_home:
-        want = [home + '/.local/share/Trash']
-    else:
-        want = []
-    if got != want:
-        return rt.fail('C07:home-trash-path:%s' % ('xdg-empty' if has_xdg and xdg == '' else 'other'),
-                       'environ %r: home trash %r, the spec says %r' % (env, got, want))
-    return rt.ok()
 
 
 class _IsMount(object):
@@ -237,6 +213,11 @@ def _case(where, top, alt, hk, uid, tdo, fb):
         if r['exc']:
             return rt.fail('C07:traceback:%s:%s' % (r['exc'].split(':')[0], label), r['exc'])
         where_now = [p for p in scen.find_equal(after, payload)]
+        if payload[0] == 'l' and not where_now:
+            # a symbolic link moved across devices is re-created (shutil.move): its own mtime is not kept.
+            # That is C01's recorded finding, not a question of WHICH directory was chosen: locate it by target
+            where_now = [p for p, v in W.flatten(after).items() if v[0] == 'l' and v[1] == payload[1]
+                         and (p == fdir + '/x' or '/files/' in p)]
         if want is None:
             if where_now != [fdir + '/x'] or r['exit'] == 0:
                 return rt.fail('C07:should-fail:' + label, 'no prescribed directory is usable, yet exit=%r and the entry is at %r' % (r['exit'], where_now))
@@ -289,10 +270,59 @@ def w_full(where: int, top: int, alt: int, hk: int, uid: int, tdo: int, fb: int)
     return _case(rt.sel(where, 8), rt.sel(top, 9), rt.sel(alt, 5), rt.sel(hk, 7), rt.sel(uid, 3), rt.sel(tdo, 4), rt.sel(fb, 4))
 
 
+# ---------------------------------------------------------------- two concurrent runs, first use of the volume
+CONC_PRE = [3, 0]  # indices into c04.CONC_PRE: sticky .Trash without $uid yet (-> .Trash/$uid); nothing yet (-> .Trash-$uid)
+
+
+def _conc(kp, pre, a1, b1):
+    """two trash-put race for the not-yet-existing trash directory of the volume: whatever the interleaving,
+    each must end up in the directory the spec prescribes (not in a later candidate, not failing)"""
+    from harness import c04
+    with rt.untraced():
+        pre4 = CONC_PRE[pre]
+        pts = c04.shared_points(kp, pre4)
+        if len(pts) > 24:
+            return rt.fail('C07:bound-too-small', '%d shared instants; selectors only range over 0..23' % len(pts))
+        if a1 >= len(pts) or b1 >= len(pts):
+            rt.begin()
+            return rt.ok()
+        kinds = c04.CONC_KINDS[kp]
+        world, td = c04.conc_world(kinds, pre4, 2)
+        m = W.build_model(world)
+        before = m.snap('/')
+        e = scen.env()
+        procs = [sched.Proc(C('put', ['x'], e, cwd='/v/d%d' % j, now='2020-01-0%dT00:00:00' % (j + 1)), 'P%d' % j) for j in range(2)]
+        segs = [(0, pts[a1]), (1, pts[b1])]
+        rt.begin(('conc', kinds, c04.CONC_PRE[pre4], segs))
+        sched.run_schedule(m, procs, segs)
+        after = m.snap('/')
+        label = 'conc:%s:%s' % ('+'.join(kinds), c04.CONC_PRE[pre4])
+        for j, p in enumerate(procs):
+            src = '/v/d%d/x' % j
+            payload = scen.sub(before, src)
+            r = p.result
+            if r['exc']:
+                return rt.fail('C07:traceback-under-concurrency:' + label, '%s: %s [schedule %r]' % (p.name, r['exc'], segs))
+            where = scen.find_equal(after, payload)
+            ok = [q for q in where if q.startswith(td + '/files/')]
+            if r['exit'] != 0 or len(ok) != 1:
+                return rt.fail('C07:wrong-dir-under-concurrency:' + label, '%s: the spec prescribes %s; exit %r, entry at %r, stderr %r [schedule %r]' % (
+                    p.name, td, r['exit'], where, r['err'][-300:], segs))
+        return rt.ok()
+
+
+def w_conc(kp: int, pre: int, a1: int, b1: int) -> str:
+    """
+    pre: PARTITION is None or (kp == PARTITION[0] and pre == PARTITION[1])
+    pre: 0 <= kp < 5 and 0 <= pre < 2 and 0 <= a1 < 24 and 0 <= b1 < 24
+    post: _ == ''
+    """
+    return _conc(rt.sel(kp, 5), rt.sel(pre, 2), rt.sel(a1, 24), rt.sel(b1, 24))
+
+
 def obligations(tier):
-    obs = [
-        CH('K_home_trash_from_env', MOD, 'k_home', timeout=120, engine='K', regime='traced',
-           encodes=['trashcli.lib.trash_dirs.home_trash_dir_path_from_env'], bounds='XDG_DATA_HOME / HOME each unset or any str len<=3'),
+    from harness import zk
+    obs = zk.home_obligations(tier) + [
         CH('K_volume_of_longest_prefix', MOD, 'k_volume', timeout=300, engine='K', regime='traced',
            encodes=['VolumeOfImpl.volume_of'], stubs=['ismount -> membership in a symbolic mount list', 'abspath -> identity'],
            bounds='path: normalised absolute str len<=5; two symbolic mount points len<=3/4 plus "/"'),
@@ -301,6 +331,11 @@ def obligations(tier):
         CH('W_trashdir_opt_and_fallback', MOD, 'w_opts', timeout=1800, partitions=list(range(8)), engine='W', regime='selector',
            encodes=K.PUT_FUNCS, stubs=K.STUBS, bounds='6 locations x 3 .Trash states x 5 .Trash-uid x 7 home variants x 4 --trash-dir x 4 fallback switches'),
     ]
+    cparts = [(k, p) for k in ((0, 2) if tier == 'quick' else range(5)) for p in range(2)]
+    obs.append(CH('W_two_runs_race_for_a_new_trash_dir', MOD, 'w_conc', timeout=1800, partitions=cparts, engine='W', regime='selector',
+                  encodes=K.PUT_FUNCS + ['vf.sched replay-stepping'], stubs=K.STUBS,
+                  bounds='2 concurrent trash-put on a volume whose trash directory does not exist yet (sticky .Trash without $uid; nothing): P0 runs to its a1-th '
+                         'shared instant, P1 to its b1-th, then both complete; all pairs of shared instants x %d kind pairs' % (len(cparts) // 2)))
     if tier == 'thorough':
         obs.append(CH('W_full_lattice', MOD, 'w_full', timeout=7000, partitions=[(a, b) for a in range(8) for b in range(9)], twin=False,
                       engine='W', regime='selector', encodes=K.PUT_FUNCS, stubs=K.STUBS, bounds='8 x 9 x 5 x 7 x 3 x 4 x 4 = 120960 configurations'))
